@@ -108,7 +108,9 @@ Inductive op :=
 | OAppend (e : nat) | OInsert (i e : nat) | OExtend (es : list nat) | OIaddEls (es : list nat)
 | OSetitem (i e : nat) | OSetslice (a b : nat) (es : list nat)
 | OMpSetitem (e : nat) (c : Z) | OSetdefault (e : nat) (c : Z) | OUpdateIter (es : list nat)
-| OUpdateMap (ecs : list (nat * Z)) | OAsMulti.
+| OUpdateMap (ecs : list (nat * Z)) | OAsMulti
+| OCtorVal (b : bool)        (* type(cur)(cur, ballot_validation=b): the one construction path that changes a flag *)
+| OInstMut (k : nat).        (* the linked Instance is emptied / refilled in place; the object is not touched *)
 
 (* ---- ballot validation ------------------------------------------------------------------------------- *)
 Definition validation_on (a : list nat) : bool := Nat.eqb (nth 1 a 0) 0.
@@ -125,6 +127,13 @@ Definition accepts (c bt t : nat) : bool :=
   else true.
 Definition hashable (t : nat) : bool := (6 <=? t) && (t <=? 9).
 Definition frozen_tag (t : nat) : nat := if (2 <=? t) && (t <=? 5) then t + 4 else t.
+
+Fixpoint nl_eqb (l1 l2 : list nat) : bool :=
+  match l1, l2 with
+  | [], [] => true
+  | x :: r1, y :: r2 => Nat.eqb x y && nl_eqb r1 r2
+  | _, _ => false
+  end.
 
 Section Env.
   Variable tags : list nat.                 (* class tag of every element id of the case *)
@@ -187,6 +196,7 @@ Section Env.
     | OSetitem _ _ => "__setitem__" | OSetslice _ _ _ => "__setitem__"
     | OMpSetitem _ _ => "__setitem__" | OSetdefault _ _ => "setdefault" | OUpdateIter _ => "update"
     | OUpdateMap _ => "update" | OAsMulti => "as_multiprofile"
+    | OCtorVal _ => "ctor(ballot_validation=...)" | OInstMut _ => "instance.clear/update"
     end.
 
   (* payload of the new container a deriving method computes (profiles only; [] elsewhere) *)
@@ -315,12 +325,20 @@ Section Env.
                                 hashable t && (negb (validation_on a) || accepts (c + 4) 0 t)) p
           then RNew (mkObj (c + 4) a' []) else RRaise cur
         else RRaise cur
+    | OCtorVal b =>
+        (* every ballot is validated against the NEW flag, whatever the flag of the source was *)
+        if is_list_profile c || is_multi_profile c then
+          let a' := firstn 1 a ++ (if b then 0 else 1) :: skipn 2 a in
+          if all_valid c a' p then RNew (mkObj c a' p) else RRaise cur
+        else RRaise cur
+    | OInstMut _ => RNone cur
     end.
 
-  (* the driver of the correspondence run: a result of the object's own class becomes the current object *)
+  (* the driver of the correspondence run: a new object of the object's own class WITH THE SAME ATTRIBUTES
+     becomes the current object *)
   Definition next (cur : obj) (r : res) : obj :=
     match r with
-    | RNew o => if Nat.eqb (o_cls o) (o_cls cur) then o else cur
+    | RNew o => if Nat.eqb (o_cls o) (o_cls cur) && nl_eqb (o_attrs o) (o_attrs cur) then o else cur
     | RSame o | RNone o | RRaise o => o
     | RPlain => cur
     end.
